@@ -19,14 +19,14 @@ func init() {
 			"(b) provenance, decided on SSA values: 'the resolved descriptor' is result 0 of Resolve, the result of a helper on the call path to Resolve whose every success-capable exit returns it, or a load of a local variable that holds nothing else and none of whose fields is written; " +
 			"Signer.Sign receives what the metadata merge of (resolved descriptor, UserMetadata) delivered (its result, or the local copy it filled in through a pointer); PushSignature receives the caller's media type, the signature bytes Sign returned, the resolved descriptor itself as subject " +
 			"and the annotations generated from Sign's SignerInfo; the annotation generator stores the lower-case hex text of sha256(cert.Raw) of every chain certificate under the thumbprint key and the signing time under the created key; " +
-			"the merge copies the descriptor's annotations (loop or maps.Copy) and the metadata pairs into one fresh map, replaces nothing but the Annotations of the descriptor it was handed and skips the replacement only without metadata; " +
+			"the merge copies the descriptor's annotations (loop or maps.Copy into a map made there; or the map is born as a copy: maps.Clone with the nil case replaced by a fresh empty map, inline or in a helper handed the annotations) and the metadata pairs into one fresh map, replaces nothing but the Annotations of the descriptor it was handed — in the by-value parameter or in a further local copy of it, the replacement preceding the read that is returned — and skips the replacement only without metadata; " +
 			"(c) gates: a digest reference that differs from the resolved digest, a reserved-prefix key (every element of the list: counting loop from 0 to its length, or slices.IndexFunc/ContainsFunc over the whole list with a HasPrefix predicate) and a key already present are fail-closed before Signer.Sign; " +
 			"the digest test is applied to the very string that was resolved, in the function that resolves (SignOCI or a helper whose success is a guard of Sign); (d) the repository parameter is used exactly for one Resolve and one PushSignature, counted per call path. " +
 			"The gates of (c) are facts about values in roles (the string resolved, the resolved descriptor and its digest; this pair's key, the annotations handed in, a map holding at least those): an edge establishes a fact directly or as the verdict of a module helper " +
 			"(bool predicate, validator returning an error, lookup returning (value, ok), closure) every return of which with that verdict lies behind such an edge of its own, roles travelling with the arguments; the pairs may be examined in a loop of the merge or of a helper handed the metadata map, " +
 			"and taken over per pair or in bulk (maps.Copy / pure copy loop) where control arrives only over the exhaustion edge of the examining loop; the annotation generator may sit behind wrappers that return its map untouched; the thumbprint list is followed as a value (append chain, preallocated slice, helper handed the chain) over a counting loop 0..len(chain)-1.",
 		NotCov:  "what a concrete repository does on push; writes performed inside Signer implementations and dependencies.",
-		Trusted: []string{"go/types, go/ssa", "Go map/slice aliasing semantics", "go-digest Parse / Digest.Validate / Digest.String", "maps.Copy, slices.IndexFunc, slices.ContainsFunc, fmt %x of a byte array (standard library contracts)", "signer-owned manifest annotation map (table entry)"},
+		Trusted: []string{"go/types, go/ssa", "Go map/slice aliasing semantics", "go-digest Parse / Digest.Validate / Digest.String", "maps.Copy, maps.Clone (nil iff the source is nil), slices.IndexFunc, slices.ContainsFunc, fmt %x of a byte array (standard library contracts)", "signer-owned manifest annotation map (table entry)"},
 	})
 }
 
@@ -772,25 +772,45 @@ func c11Merge(c *Ctx, M *ssa.Function) {
 	s := w.Summarize(M, Mode{Kind: mErr})
 	okResult := len(s.Exits) > 0
 	detail := ""
-	noAssign := map[edgeKey]bool{}
-	for _, st := range m.annS {
-		cutInto(fi, st.Block(), noAssign)
-	}
 	for _, ex := range s.Exits {
+		// the object delivered and the replacements it carries (c11M.replacements). By value: result 0 is the parameter
+		// itself (nothing replaced) or a load of D / of a local copy of D that holds the descriptor at that point — an equal
+		// descriptor value whichever variable it is read from, since no other field of any of them is ever written. In
+		// place: the caller's variable, every store into its Annotations counts.
+		rel := m.annS
+		var ld ssa.Instruction = ex.Ret
 		if !m.ptr {
-			u, ok := ex.Ret.Results[0].(*ssa.UnOp)
-			if !(ok && u.Op == token.MUL && u.X == m.D) && ex.Ret.Results[0] != ssa.Value(m.dPar) {
+			r0 := ex.Ret.Results[0]
+			u, isLoad := r0.(*ssa.UnOp)
+			switch {
+			case r0 == ssa.Value(m.dPar):
+				rel = nil
+			case isLoad && u.Op == token.MUL && m.isObject(u.X) && m.holdsDescriptor(u.X, u):
+				rel, ld = m.replacements(u.X), u
+			default:
 				okResult = false
-				detail = "the exit at " + w.InstrPos(ex.Ret) + " returns " + desc(ex.Ret.Results[0]) + ", not the descriptor handed in"
+				detail = "the exit at " + w.InstrPos(ex.Ret) + " returns " + desc(r0) + ", not the descriptor handed in"
+				continue
 			}
 		}
+		// the value delivered is read at ld (the load of the object; in place: the return): a replacement counts when it runs
+		// before that read — earlier in the read's block, or in another block that every path to the read's block passes
+		// (a store behind the read in the same block comes too late: `out := *d; d.Annotations = u; return out`)
+		noAssign := map[edgeKey]bool{}
 		inAssignBlock := false
-		for _, st := range m.annS {
-			if st.Block() == ex.Ret.Block() || st.Block().Index == 0 {
+		for _, st := range rel {
+			if st.Block() == ld.Block() {
+				if instrIndex(st) < instrIndex(ld) {
+					inAssignBlock = true
+				}
+				continue
+			}
+			cutInto(fi, st.Block(), noAssign)
+			if st.Block().Index == 0 {
 				inAssignBlock = true
 			}
 		}
-		if inAssignBlock || !fi.reachHit(entryState(), noAssign, blocksOf(ex.Ret)) && ex.Ret.Block().Index != 0 {
+		if inAssignBlock || !fi.reachHit(entryState(), noAssign, blocksOf(ld)) && ld.Block().Index != 0 {
 			continue
 		}
 		if _, ok := ex.Checked["EQ(len("+desc(m.mPar)+"),const:0)"]; !ok {
